@@ -3,7 +3,7 @@ import pickle
 import pprint
 from io import BytesIO
 from numpy import ndarray
-from numpy.testing import assert_almost_equal
+from numpy.testing import assert_almost_equal, assert_array_equal
 from pandas.testing import assert_frame_equal
 from sklearn.base import BaseEstimator
 from sklearn.model_selection import train_test_split
@@ -177,6 +177,33 @@ def _assert_tuple_equal(t1, t2, ext):
             ext.assertEqual(a, b)
 
 
+def _assert_value_equal(a, b, ext):
+    """
+    Compares two fitted attributes. Objects without value equality
+    (such as :epkg:`scikit-learn`'s trees) are compared through their state.
+    """
+    if isinstance(a, BaseEstimator) and isinstance(b, BaseEstimator):
+        assert_estimator_equal(a, b, ext)
+    elif isinstance(a, (list, tuple)) and isinstance(b, (list, tuple)):
+        assert len(a) == len(b), f"Different lengths {len(a)} != {len(b)}"
+        for x, y in zip(a, b):
+            _assert_value_equal(x, y, ext)
+    elif isinstance(a, dict) and isinstance(b, dict):
+        assert set(a) == set(b), f"Different keys {sorted(a)} != {sorted(b)}"
+        for k in a:
+            _assert_value_equal(a[k], b[k], ext)
+    elif isinstance(a, ndarray) and isinstance(b, ndarray) and a.dtype.names:
+        assert_array_equal(a, b)
+    elif (
+        type(a) is type(b)
+        and type(a).__eq__ is object.__eq__
+        and a.__getstate__() is not None
+    ):
+        _assert_value_equal(a.__getstate__(), b.__getstate__(), ext)
+    else:
+        ext.assertEqual(a, b)
+
+
 def assert_estimator_equal(esta, estb, ext=None):
     """
     Checks that two models are equal.
@@ -204,10 +231,7 @@ def assert_estimator_equal(esta, estb, ext=None):
                 list(sorted(esta.__dict__)),
                 list(sorted(estb.__dict__)),
             )
-            if isinstance(getattr(esta, att), BaseEstimator):
-                assert_estimator_equal(getattr(esta, att), getattr(estb, att), ext)
-            else:
-                ext.assertEqual(getattr(esta, att), getattr(estb, att))
+            _assert_value_equal(getattr(esta, att), getattr(estb, att), ext)
     for att in estb.__dict__:
         if att.endswith("_") and not att.endswith("__"):
             assert hasattr(
